@@ -449,6 +449,35 @@ impl Gen {
         };
         let mut tags: Vec<Vec<String>> = vec![];
         let mut ref_times: Vec<u64> = vec![];
+        // now and then a request with a long target list (dozens of effective tags before a
+        // possible failure; batch boundaries such as 64 or 128 inside)
+        let big_den: u64 = match self.p.prop {
+            "C10" => 25,
+            "C12" | "C11" | "C13" => 40,
+            _ => 60,
+        };
+        if self.rng.chance(1, big_den) {
+            let nbig = *self.rng.pick(&[40usize, 63, 64, 65, 66, 100, 129, 140]);
+            for k in 0..nbig {
+                if !own_retr.is_empty() && self.rng.chance(1, 4) {
+                    let t = self.rng.pick(&own_retr);
+                    ref_times.push(t.at);
+                    tags.push(vec!["e".into(), hex(&t.id)]);
+                } else {
+                    let mut id = self.rng.bytes32();
+                    id[0] = (k & 0xff) as u8;
+                    tags.push(vec!["e".into(), hex(&id)]);
+                }
+            }
+            if !foreign_retr.is_empty() && self.rng.chance(3, 5) {
+                let t = self.rng.pick(&foreign_retr);
+                // late in the list, so that many effective tags precede it
+                let pos = tags.len() - self.rng.usize(tags.len() / 4 + 1);
+                tags.insert(pos, vec!["e".into(), hex(&t.id)]);
+            }
+            let at = ref_times.iter().copied().max().unwrap_or_else(|| self.time()).saturating_add(1);
+            return EvSpec { id: self.rng.bytes32(), pk, kind: 5, at, tags, content: vec![] };
+        }
         for _ in 0..n {
             match self.rng.weighted(&[30, 8, foreign_w, 6, 4, 30, 6, foreign_w / 2 + 1, 4]) {
                 0 if !own_retr.is_empty() => {
